@@ -331,7 +331,9 @@ int request::on_content_progress(size_t n)
 					return 400;
 				}
 			}
-			if(begin==end && d->read_size==d->content_length && r!=multipart_parser::eof) {
+			if(begin==end && d->read_size==d->content_length && r!=multipart_parser::eof
+			   && !d->multipart_parser->close_delimiter_seen())
+			{
 				return 400;
 			}
 		}
